@@ -98,7 +98,9 @@ def conf_loop(interp, st, rng, fr):
             except ContinueEx:
                 pass
             except BreakEx:
-                raise Undecided("break in the tagged loop")
+                # the loop stops at an unknown entry: everything from here on stays unread
+                ctx.oblige("conf/unknown-tag-step/loop-does-not-stop-at-an-unknown-tag", z3.BoolVal(False))
+                return
             ctx.oblige("conf/unknown-tag-step/skips-exactly-the-entry",
                        tobool(equalise(ctx, temp.rest(), [Raw(tailc)])))
             same = all(n in f2.env and f2.env[n] is fr.env[n] and dict(f2.env[n]) == old for n, old in dicts.items())
@@ -114,7 +116,7 @@ def conf_loop(interp, st, rng, fr):
         except ContinueEx:
             pass
         except BreakEx:
-            raise Undecided("break in the tagged loop")
+            return          # `break`: the loop ends here, later entries stay unread (no `else` clause runs)
         remaining = z3.simplify(remaining - 1)
     raise Undecided("tagged loop did not finish structurally")
 
@@ -159,9 +161,20 @@ def conf_replayer(T, r, x, present, explicit_null, uruns):
         last = None
         for with_unknown in (False, True):
             data, n_unknown = build(with_unknown)
+            from checks.l1_serial import ReadOnlySource
             buf = io.BytesIO(data + b"\x55")
             k, res = native_outcome(lambda: r(buf))
             ok = k == "return" and res == v and buf.tell() == len(data)
+            if ok:
+                ro = ReadOnlySource(data + b"\x55")
+                k2, res2 = native_outcome(lambda: r(ro))
+                if not (k2 == "return" and res2 == v and ro.pos == len(data)):
+                    ok, k, res = False, k2, res2
+
+                    class buf:       # noqa: N801 - position of the deciding (read-only) run
+                        @staticmethod
+                        def tell():
+                            return ro.pos
             wc = "unknown tagged field" if n_unknown else ("explicit null for a nullable tagged field" if explicit_null else None)
             last = {"confirmed": not ok, "class": f"{T.__module__}:{T.__qualname__}", "input_bytes": data.hex()[:600],
                     "expected": {"value": repr(v)[:400], "position": len(data)},
